@@ -215,7 +215,7 @@ func (c *c07ctx) search(re *coregex.Regex, eng *meta.Engine, h []byte, s string,
 	})
 	ns := []int{-1, 2}
 	if big {
-		ns = []int{3}
+		ns = []int{12}
 	}
 	for _, n := range ns {
 		sn := "(" + strconv.Itoa(n) + ")"
